@@ -405,7 +405,12 @@ def _fields(acc, ann, meta, cache):
     for base in ("Schema", "DataClass"):
         for fpol in (None, "exclude", "preserve", "throw"):
             for cpol in POLICIES:
+              # how the class-level policy comes into force: declared with the fields, given at run time over another
+              # declared one, or declared by a subclass that inherits the fields of a class with another one
+              for route in ("class", "runtime", "subclass"):
                 for variant in ("required", "optional", "default", "modereq", "modeopt", "dep"):
+                    if route != "class" and variant not in ("required", "optional", "default"):
+                        continue
                     if fpol == "exclude" and variant == "required":
                         # documented: on_error='exclude' cannot be used on a required field; the class-level policy can
                         pass
@@ -418,8 +423,11 @@ def _fields(acc, ann, meta, cache):
                     mode = {"modereq": "mode='w', ", "modeopt": "mode='r', "}.get(variant, "")
                     oe = f"on_error={fpol!r}" if fpol else ""
                     fld = fld.format(oe=oe, oe2=(", " + oe) if oe else "")
-                    src = (f"class S({base}):\n    __options__ = Options({mode}invalid_values={cpol!r})\n"
+                    dpol = cpol if route == "class" else POLICIES[(POLICIES.index(cpol) + 1) % 3]
+                    src = (f"class {'S' if route != 'subclass' else 'B0'}({base}):\n    __options__ = Options({mode}invalid_values={dpol!r})\n"
                            f"    a: {lexpr} = {fld}\n    b: int = 0\n" + ("    c: int = Field(required=False)\n" if variant == "dep" else ""))
+                    if route == "subclass":
+                        src += f"class S(B0):\n    __options__ = Options(invalid_values={cpol!r})\n"
                     try:
                         env = _class(src)
                     except Exception as e:
@@ -432,7 +440,10 @@ def _fields(acc, ann, meta, cache):
                             acc.transitions += 2
                             ok, conv = alone(lexpr, vx, o0, cache)
                             try:
-                                inst = env["S"](a=ev(vx), b=ev(bx))
+                                if route == "runtime":
+                                    inst = env["S"].__from__(dict(a=ev(vx), b=ev(bx)), options=env["Options"](invalid_values=cpol))
+                                else:
+                                    inst = env["S"](a=ev(vx), b=ev(bx))
                                 st = "ok"
                             except uexc.ParseError as e:
                                 st, inst = "err", e
@@ -440,8 +451,9 @@ def _fields(acc, ann, meta, cache):
                                 st, inst = "other", e
                             acc.evaluations += 1
                             acc.outcomes[f"fields:{st}"] += 1
-                            tag = f"{variant},on_error={fpol},invalid_values={cpol}"
-                            xexpr = f"S(a={vx}, b={bx})"
+                            tag = f"{variant},on_error={fpol},invalid_values={cpol}" + ("" if route == "class" else f"@{route}-over-{dpol}")
+                            xexpr = f"S(a={vx}, b={bx})" if route != "runtime" else \
+                                f"S.__from__(dict(a={vx}, b={bx}), options=Options(invalid_values={cpol!r}))"
                             b_bad = bx == "'x'"
                             if not ok or b_bad:
                                 acc.nontrivial_add((src, xexpr))
